@@ -214,6 +214,31 @@ def _discarded(b, bb, depth=0):
     return False
 
 
+def rule_try_never_panics_on_alloc(ctx, rule="C05-trynopanic"):
+    """who-may-call: nothing reachable from a `try_*` entry point turns a ReserveError into the message
+    panic (the unwrap helper / its panic function) - the try forms report, the plain forms panic"""
+    F, cg = ctx.F, ctx.cg
+    uw, panic_fn = find_unwrap_helper(F)
+    targets = {x for x in (uw, panic_fn) if x}
+    n = 0
+    for path, b in F.bodies.items():
+        leaf = path.rsplit("::", 1)[-1]
+        if not leaf.startswith("try_") or b.j["kind"] == "closure" or path.startswith("repr::"):
+            continue
+        n += 1
+        seen, leaves, users, parent = cg.reach([path])
+        hit = sorted(t for t in targets if t in seen)
+        chain = []
+        if hit:
+            x = hit[0]
+            while x in parent and len(chain) < 8:
+                chain.append(x)
+                x = parent[x]
+        ctx.ob(rule, path, "no-message-panic", not hit, how="the unwrap helper is not reachable",
+               detail="%s reaches %s (%s): the allocator's refusal becomes a panic in the form that promises to return ReserveError" % (path, hit[:1], " <- ".join(str(c) for c in chain)))
+    ctx.need(rule, "crate", "try-entry-points", n >= 10, "only %d try_* entry points" % n, how="%d try_* entry points" % n)
+
+
 # pre-sizing through the public API is a hint: every later write goes through the public, checked
 # operations, which reserve for themselves and report (Extend<char> ignores a refused size hint)
 HINT_OK = ("LeanString::try_reserve",)
@@ -237,6 +262,14 @@ def rule_errors_not_dropped(ctx, rule="C05-errused"):
             n += 1
             if callee_name(t) in HINT_OK:
                 continue
+            if callee_name(t) == "repr::Repr::reserve" and not path.startswith("repr::"):
+                # the same hint one level down, in a function that writes nothing itself: what it
+                # appends afterwards goes through operations that reserve (and report) for themselves
+                from guards import inlined_calls
+                raw = ("repr::Repr::as_slice_mut", "repr::Repr::as_str_mut", "repr::Repr::set_len", "repr::heap_buffer::HeapBuffer::set_len", "core::ptr::copy", "core::ptr::copy_nonoverlapping",
+                       "core::ptr::write", "core::slice::<impl [T]>::copy_from_slice", "repr::heap_buffer::HeapBuffer::realloc")
+                if not any(callee_name(t2) in raw for _, _, t2 in inlined_calls(b)):
+                    continue
             ctx.ob(rule, path, "result-examined:%s" % callee_name(t).rsplit("::", 1)[-1], not _discarded(b, bb), line=t.get("line"), how="Result of %s is propagated / matched" % callee_name(t),
                    detail="the Result<_, ReserveError> returned by %s is discarded: when the allocator refuses, the caller carries on (and reports Ok) as if the operation had happened" % callee_name(t))
     ctx.need(rule, "crate", "fallible-calls", n >= 20, "only %d calls returning Result<_, ReserveError>" % n, how="%d fallible storage calls" % n)
@@ -340,6 +373,45 @@ def rule_atomics_syntactic(ctx, rule="P4"):
             ctx.ob(rule, path, "atomic:" + site, leaf in ("fetch_add", "fetch_sub", "load") and on_counter, how="%s on the reference counter" % leaf, line=t.get("line", 0),
                    detail="atomic operation %s on %s is outside the Arc protocol (only fetch_add / fetch_sub / load on the reference counter are allowed)" % (leaf, a0))
     ctx.need(rule, "crate", "atomic-sites", n >= 5, "only %d atomic operations found" % n, how="%d atomic operations" % n)
+    # ... and nothing reads the counter any other way: a by-value read of a struct that contains it
+    # (`header_ptr.read()`, a copy of the whole header) is a plain load racing with the other
+    # owners' fetch_add / fetch_sub
+    holders = set()
+    for pth, a in F.adts.items():
+        if any("core::sync::atomic::Atomic" in f["ty"] for v in a["variants"] for f in v["fields"]):
+            holders.add(pth)
+    changed = True
+    while changed:
+        changed = False
+        for pth, a in F.adts.items():
+            if pth not in holders and any(f["ty"].strip() in holders for v in a["variants"] for f in v["fields"]):
+                holders.add(pth)
+                changed = True
+    nread = 0
+    for path, b in F.bodies.items():
+        for bb, t in b.calls():
+            nm = callee_name(t)
+            leaf = nm.rsplit("::", 1)[-1]
+            if not ((nm.startswith("core::ptr::") or nm.startswith("core::mem::") or nm.startswith("core::intrinsics::")) and (leaf.startswith("read") or leaf.startswith("copy") or leaf in ("replace", "swap", "take", "transmute_copy"))):
+                continue
+            ga = t.get("generic_args") or []
+            tys = [x.strip() for x in ga] + [re.sub(r"^(\*const |\*mut |&mut |&)", "", x).strip() for x in t.get("arg_tys", [])]
+            hit = [x for x in tys if x in holders]
+            if hit:
+                nread += 1
+                ctx.ob(rule, path, "by-value-read-of-counter-holder:" + leaf, False, line=t.get("line", 0),
+                       detail="%s copies a whole %s, which contains the atomic reference counter: a non-atomic read of a location other owners update with fetch_add / fetch_sub (data race)" % (nm, hit[0]))
+        for blk in b.blocks:
+            for st in blk["stmts"]:
+                if st["k"] == "assign" and st["rv"]["k"] == "use" and (st.get("lhs_ty") or "").strip() in holders:
+                    o = st["rv"]["a"]
+                    pl = o.get("cp") or o.get("mv")
+                    if pl and "deref" in pl["p"]:
+                        nread += 1
+                        ctx.ob(rule, path, "by-value-read-of-counter-holder:move", False, line=st.get("line", 0),
+                               detail="a whole %s (which contains the atomic reference counter) is read through a pointer by value" % st.get("lhs_ty"))
+    if not nread:
+        ctx.ob(rule, "crate", "no-by-value-read-of-counter-holder", True, how="%s are never read by value through a pointer" % sorted(holders))
 
 
 WRAPPERS = {"try_reserve": "reserve", "try_shrink_to": "shrink_to", "try_shrink_to_fit": "shrink_to", "try_push_str": "push_str", "try_push": "push_str",
